@@ -218,3 +218,20 @@ Theorem C15_pipeline_equiv_dups :
   exec (concat ss) m x = exec (concat (seq_events p 0 (Z.of_nat n) 1)) m x.
 Proof. exact pipeline_equiv_dups. Qed.
 Print Assumptions C15_pipeline_equiv_dups.
+
+(* non-vacuity of the hypotheses of C15_pipeline_machine / C15_pipeline_equiv_dups *)
+Example C15_machine_nonvacuous :
+  dups pipe3 = Some [10; 11] /\ safe_pipe pipe3 [10; 11] = true /\
+  (forall k o, In o (nth k (p_stages pipe3) []) -> s_core o = 0 \/ s_core o = 1) /\
+  (1 <= nstages pipe3)%nat /\ ~ duprel [10; 11] (bid 1 8) /\ duprel [10; 11] (bid 1010 0).
+Proof.
+  split; [reflexivity|]. split; [reflexivity|]. split; [|split; [simpl; lia|split]].
+  - intros k o H. destruct k as [|[|[|k]]]; simpl in H.
+    + destruct H as [<-|[]]. right. reflexivity.
+    + destruct H as [<-|[]]. left. reflexivity.
+    + destruct H as [<-|[]]. right. reflexivity.
+    + destruct k; destruct H.
+  - intros [b [Hb Hx]]. unfold bid, IDLIM, DUPOFF in Hx. destruct Hb as [<-|[<-|[]]]; destruct Hx as [Hx|Hx]; lia.
+  - exists 10. split; [left; reflexivity | right; reflexivity].
+Qed.
+Print Assumptions C15_machine_nonvacuous.
